@@ -7,6 +7,7 @@ for d in sorted(glob.glob(V + '/seeded/*/meta.json')):
     m = json.load(open(d))
     rows.append(m)
 missed = [m for m in rows if m['initially_missed']]
+notcaught = [m for m in rows if m.get('not_caught')]
 own = sorted(os.path.basename(f) for f in glob.glob(V + '/mutants/*.diff'))
 waves = {}
 for m in rows:
@@ -35,7 +36,9 @@ the environment rather than on an input value (interleavings, relative speed, po
 legal corner behaviour of readers, writers and randomness sources; adding a goroutine, a lock, a
 cache or a timeout "for speed" or "for robustness" was welcome), the ninth to breakage introduced
 by a robustness or performance feature that involves time or parallelism (time-outs, deadlines,
-retries with back-off, worker pools sized by `runtime.NumCPU()`, loops split across goroutines).
+retries with back-off, worker pools sized by `runtime.NumCPU()`, loops split across goroutines),
+the tenth to failure-and-recovery paths (something fails or is aborted - a session, an OT batch, a
+parse, a compilation, a Join - and the same process, object or connection is used again).
 All %d changes were
 confirmed by `bin/confirm-seeded` (patch applies to HEAD; `go build ./...`; `go test` of every
 package except the root passes; the demonstration fails with the change and passes without it) and
@@ -62,8 +65,17 @@ once, eight after a workload extension made from the sub-agent's report before t
 against the change (per-party and per-job CPU counts, wide CPU counts, a thousand input wires,
 wide outputs, busy receivers and stalling links, start delays of minutes) - and one of them
 (C14-i) first ended in exit 2, because a rewritten `go` statement ran in a package's `init`.
+The tenth wave ("fail, then carry on") is where the line of the properties shows: eleven of its
+fourteen changes are caught (three at once, one by the check of the property it really breaks,
+seven after a fail-first mode was added to the world from the report), and **three are recorded as
+not caught** (%s): each needs the application to keep using an object after an operation on it
+returned an error in a way the unchanged library does not support in general either (repeat a
+receive after a read error; call `Streaming.Garble` again after it failed; `Mul` again after a
+`Mul` that failed on a size disagreement plus a read error). A check that demanded those was
+built once (C11) and raised an alarm on the unchanged tree at its first run; it was withdrawn
+(section 7). Their metas carry `not_caught` and `bin/seeded-sweep` skips them.
 
-''' % (ordn[len(waves) - 1].capitalize(), len(rows), len(own), len(missed), len(rows), per_wave)
+''' % (ordn[len(waves) - 1].capitalize(), len(rows), len(own), len(missed), len(rows), per_wave, ', '.join(m['name'] for m in notcaught))
 out += '''| change | property | what was changed | needs | clause that fires | missed at first? |
 |---|---|---|---|---|---|
 '''
@@ -149,6 +161,15 @@ What the misses taught (kept as rules for the workloads):
 * Library code runs before any run starts (package `init`): goroutines started there live in the
   ambient world (C14-i).
 * Sizes again: a thousand input wires (C04-i), results of several machine words (C16-i).
+
+* A process that has seen a failure goes on living: a session whose connection was reset, a
+  garbler that ran out of randomness, a compilation with a typo, a full disk, a refused circuit,
+  a Join whose address was still taken, a Receive called with the wrong slice - and the next
+  operation in that process must be as good as ever (C02-j, C05-j, C06-j, C08-j, C10-j, C14-j,
+  C16-j, C18-j, C19-j). Every world has a fail-first mode now; only what follows the failure is
+  judged, by the unchanged oracle, and only where the library itself supports carrying on (a shared
+  COT is bound to its first connection: re-initialising it after a failure was a slip of the
+  harness, found on the unchanged tree before it was committed).
 
 Own mutants (`/verif/mutants/*.diff`; `revert-<commit>` is a `fix:` commit reversed): ''' + ', '.join(own) + '''.
 
